@@ -45,10 +45,12 @@ def swapRemoveL {α : Type} (l : List α) (pos : Nat) : List α :=
   | some last => if pos + 1 == l.length then l.dropLast else (l.set pos last).dropLast
 
 /-- `new_solver_var`: never reuse a variable the solver already knows -/
-def newSolverVar (e : Enc) (t : VarType) : Prog (Nat × Enc) := do
-  let nv ← getNVars 0
+def allocVar (e : Enc) (t : VarType) (nv : Nat) : Nat × Enc :=
   let vars := e.vars ++ List.replicate (nv + 1 - e.vars.length) .ignored ++ [t]
-  pure (vars.length - 1, { e with vars := vars })
+  (vars.length - 1, { e with vars := vars })
+
+def newSolverVar (e : Enc) (t : VarType) : Prog (Nat × Enc) :=
+  .nVars 0 (fun nv => .pure (allocVar e t nv))
 
 def removeSelector (e : Enc) (s : Nat) : Prog Enc := do
   addClause 0 [nl s]
